@@ -10,7 +10,7 @@
    gap_code follow _Lagrangian._eval, eval_gap and _GapResult.gap statement by statement;
    L_low_true / gap_true are the specification (true minimum over the class, true duality gap). *)
 From Coq Require Import QArith ZArith List Bool.
-From FL Require Import Num Saddle Saddle_proofs.
+From FL Require Import Num Saddle Saddle_proofs SaddleFit SaddleFit_proofs.
 From FLGen Require Gen_egconst.
 Import ListNotations.
 Open Scope Q_scope.
@@ -151,6 +151,155 @@ Theorem C08_weights_probability : forall counts,
   (forall x, In x (eg_weights counts) -> 0 <= x) /\ rsum (eg_weights counts) == 1.
 Proof. exact weights_probability. Qed.
 Print Assumptions C08_weights_probability.
+
+(* ====================================================================================================
+   Extension: the regenerated kernels ARE the model's definitions; the linear program; the returned object
+   ==================================================================================================== *)
+
+(* _Lagrangian._eval (tail), regenerated: for the model's error / gamma / bound it yields the model's L and
+   L_high -- `error + np.sum(lambda_vec * (gamma - bound))`, `error (+ B * max_constraint if max_constraint > 0)` *)
+Theorem C08_eval_src_is_model : forall H c B Qw lam',
+  Gen_egconst.eval_tail_src B (err H Qw) lam' (gammaQ H c Qw) c = (L H c Qw lam', L_high H c B Qw).
+Proof. exact (fun _ _ _ _ _ => eq_refl). Qed.
+Print Assumptions C08_eval_src_is_model.
+
+(* eval_gap, regenerated (arguments of _GapResult, the query mul * lambda_hat handed to best_h, the candidate
+   evaluated at lambda_hat, the update of L_low, the early break, the gap expression), is Saddle.gap_code with
+   the source's constants: pieces by reflexivity, the loop by L_low_loop_for_break *)
+Theorem C08_eval_gap_src_is_model :
+  (forall Lv hi, Gen_egconst.gap_init_src Lv hi = (Lv, Lv, hi)) /\
+  (forall H c nu Lv high lam lam' m cur,
+     Gen_egconst.loop_step_src H c nu Lv high lam lam' m cur =
+     (let cand := L_pt c (best_response H (vscale m lam)) lam' in if Qltb cand cur then cand else cur)) /\
+  (forall nu Lv high cur,
+     Gen_egconst.loop_break_src nu Lv high cur = Qltb (nu + Gen_egconst.precision) (gap_of Lv cur high)) /\
+  (forall H c B nu Qw lam lam',
+     Gen_egconst.eval_gap_src H c B nu Qw lam lam' =
+     gap_code H c B Gen_egconst.precision nu Gen_egconst.muls Qw lam lam').
+Proof.
+  exact (conj (fun _ _ => eq_refl) (conj (fun _ _ _ _ _ _ _ _ _ => eq_refl) (conj (fun _ _ _ _ => eq_refl)
+          (fun H c B nu Qw lam lam' =>
+             gap_code_for_break H c B Gen_egconst.precision nu Gen_egconst.muls Qw lam lam')))).
+Qed.
+Print Assumptions C08_eval_gap_src_is_model.
+
+(* fit, regenerated: which nu is used, what an iteration appends to (Qs, gaps), the break rule, and
+   best_iter_ / best_gap_ / weights_ are the model's nu_used, keep_pair, stop_now, select and returned *)
+Theorem C08_fit_src_is_model :
+  (forall p a, Gen_egconst.nu_src p a = nu_used p a) /\
+  (forall (A : Type) (q : A) g lp, Gen_egconst.keep_src q g lp = keep_pair q g lp) /\
+  (forall g nu t, Gen_egconst.stop_src g nu t = stop_now g nu Gen_egconst.min_iter t) /\
+  (forall gaps, Gen_egconst.select_src gaps = select Gen_egconst.precision gaps) /\
+  (forall (A : Type) (d : A) gaps Qs,
+     Gen_egconst.returned_src d gaps Qs = returned d Gen_egconst.precision gaps Qs).
+Proof.
+  exact (conj (fun _ _ => eq_refl) (conj (fun _ _ _ _ => eq_refl) (conj (fun _ _ _ => eq_refl)
+          (conj (fun _ => eq_refl) (fun _ _ _ _ => eq_refl))))).
+Qed.
+Print Assumptions C08_fit_src_is_model.
+
+(* the certificate, stated on the regenerated eval_gap *)
+Theorem C08_certificate_src : forall H c B nu Qw Qs lam lam',
+  wf H c = true -> is_dist H Qw = true -> is_dist H Qs = true ->
+  all_nonneg lam' = true -> 0 < B -> compat H lam lam' = true ->
+  feasible H c Qs = true ->
+  (forall h, In h H -> 0 <= err_h h <= 1) ->
+  let g := Gen_egconst.eval_gap_src H c B nu Qw lam lam' in
+  err H Qw <= err H Qs + 2 * g /\ forall v, In v (viol H c Qw) -> v <= (1 + 2 * g) / B.
+Proof.
+  exact (fun H c B nu Qw Qs lam lam' W D Ds Hl HB C F U =>
+    eq_ind_r (fun g => err H Qw <= err H Qs + 2 * g /\ forall v, In v (viol H c Qw) -> v <= (1 + 2 * g) / B)
+             (C08_certificate H c B nu Qw Qs lam lam' W D Ds Hl HB C F U)
+             (proj2 (proj2 (proj2 C08_eval_gap_src_is_model)) H c B nu Qw lam lam')).
+Qed.
+Print Assumptions C08_certificate_src.
+
+(* a requested nu is the nu used: nu_src (Some v) = v (v = 0 included), and only nu=None gets the automatic value;
+   a run GIVEN nu = v that stops before max_iter (regenerated break rule) hands out a gap < v *)
+Theorem C08_requested_nu : forall (g : nat -> Q) v auto max_iter,
+  Gen_egconst.nu_src (Some v) auto = v /\ Gen_egconst.nu_src None auto = auto /\
+  (let gaps := run g (Gen_egconst.nu_src (Some v) auto) Gen_egconst.min_iter max_iter 0 in
+   (length gaps < max_iter)%nat ->
+   selected_gap Gen_egconst.precision gaps < v /\ (Gen_egconst.min_iter <= length gaps - 1)%nat).
+Proof.
+  exact (fun g v auto max_iter => conj eq_refl (conj eq_refl
+          (early_stop_requested_nu g v auto Gen_egconst.min_iter Gen_egconst.precision max_iter
+             (proj2 (proj2 (proj2 (proj2 C08_source_constants))))))).
+Qed.
+Print Assumptions C08_requested_nu.
+
+(* one iteration appends one of the two candidates WHOLE (weights and gap of the same candidate), the one with
+   the smaller gap *)
+Theorem C08_keep_is_a_candidate : forall (A : Type) (q : A) g lp,
+  (Gen_egconst.keep_src q g lp = (q, g) \/ lp = Some (Gen_egconst.keep_src q g lp)) /\
+  snd (Gen_egconst.keep_src q g lp) = keep_gap g (option_map snd lp).
+Proof. exact (fun A q g lp => conj (keep_pair_cases q g lp) (keep_pair_gap q g lp)). Qed.
+Print Assumptions C08_keep_is_a_candidate.
+
+(* returned object consistency: with `its` the pairs (Q_t, gap_t) appended by the iterations, fit hands out
+   weights_ and best_gap_ of the SAME iteration best_iter_, and that gap is within _PRECISION of every recorded gap *)
+Theorem C08_returned_consistent : forall (A : Type) (d : A) (its : list (A * Q)), its <> [] ->
+  let r := Gen_egconst.returned_src d (map snd its) (map fst its) in
+  (ret_iter r < length its)%nat /\
+  nth_error its (ret_iter r) = Some (ret_weights r, ret_gap r) /\
+  In (ret_weights r, ret_gap r) its /\
+  ret_gap r = selected_gap Gen_egconst.precision (map snd its) /\
+  (forall p, In p its -> ret_gap r <= snd p + Gen_egconst.precision).
+Proof.
+  exact (fun A d its Hne => returned_consistent d Gen_egconst.precision its Hne
+                              (proj2 (proj2 (proj2 (proj2 C08_source_constants))))).
+Qed.
+Print Assumptions C08_returned_consistent.
+
+(* ... hence the certificate travels with the weights: if every appended gap_t is the gap eval_gap computes
+   for the appended Q_t (some recorded multiplier, exact oracle), both saddle-point bounds hold for the RETURNED
+   weights_ with g = the RETURNED best_gap_ -- whichever iteration was selected *)
+Theorem C08_returned_certificate : forall H c B nu (its : list (list Q * Q)) Qstar,
+  wf H c = true -> 0 < B ->
+  is_dist H Qstar = true -> feasible H c Qstar = true ->
+  (forall h, In h H -> 0 <= err_h h <= 1) ->
+  its <> [] ->
+  (forall Qw g, In (Qw, g) its ->
+     is_dist H Qw = true /\
+     exists lam lam', all_nonneg lam' = true /\ compat H lam lam' = true /\
+                      g == Gen_egconst.eval_gap_src H c B nu Qw lam lam') ->
+  let r := Gen_egconst.returned_src [] (map snd its) (map fst its) in
+  err H (ret_weights r) <= err H Qstar + 2 * ret_gap r /\
+  forall v, In v (viol H c (ret_weights r)) -> v <= (1 + 2 * ret_gap r) / B.
+Proof.
+  exact (fun H c B nu its Qstar W HB Ds F U Hne Hall =>
+    returned_certificate H c B Gen_egconst.precision nu [2; 5; 10] its Qstar W HB
+      (proj2 (proj2 (proj2 (proj2 C08_source_constants)))) Ds F U Hne
+      (fun Qw g Hin => match Hall Qw g Hin with
+         | conj D (ex_intro _ lam (ex_intro _ lam' (conj Hl (conj C E)))) =>
+             conj D (ex_intro _ lam (ex_intro _ lam' (conj Hl (conj C
+               (eq_ind _ (fun x => g == x) E _
+                  (proj2 (proj2 (proj2 C08_eval_gap_src_is_model)) H c B nu Qw lam lam'))))))
+         end)).
+Qed.
+Print Assumptions C08_returned_certificate.
+
+(* solve_linprog: every point satisfying what the code asks of scipy (sum of the weights = 1, default bounds
+   >= 0, one row per constraint) is a probability vector over the hypotheses found so far *)
+Theorem C08_lp_weights_probability : forall H c x z,
+  lp_feasible H c x z = true -> is_dist H x = true.
+Proof. exact lp_weights_probability. Qed.
+Print Assumptions C08_lp_weights_probability.
+
+(* what the LP minimises is L_high: at every feasible point objective >= L_high(weights); an OPTIMAL answer has
+   L_high <= L_high(Q') for every distribution Q' over the same hypotheses, and objective value = its L_high *)
+Theorem C08_lp_value_le_any_distribution : forall H c B x z,
+  wf H c = true -> 0 <= B ->
+  (lp_feasible H c x z = true -> L_high H c B x <= lp_objective H B x z) /\
+  (lp_optimal H c B x z ->
+   (forall Q', is_dist H Q' = true -> L_high H c B x <= L_high H c B Q') /\
+   lp_objective H B x z == L_high H c B x).
+Proof.
+  exact (fun H c B x z W HB => conj (lp_objective_ge_L_high H c B x z W HB)
+                                    (lp_value_le_any_distribution H c B x z W HB)).
+Qed.
+Print Assumptions C08_lp_value_le_any_distribution.
+
 
 (* non-vacuity: a class of four hypotheses with two (antisymmetric) constraints, a mixed Q, a feasible
    Q-star, a non-zero multiplier: every premise of C08_certificate holds and the gap is positive *)
